@@ -203,7 +203,7 @@ pub trait PFloatV<T: PFloat, const N: usize>: VIo<T, N> + Zero + One + Inv<Outpu
 impl<T: PFloat, const N: usize, V> PFloatV<T, N> for V where V: VIo<T, N> + Zero + One + Inv<Output = V> + Euclid {}
 
 /// Benign lanes everywhere; the class's offending pair at lane `bad` (if any).
-fn backgrounds<T: PNum, const N: usize>(bad: Option<usize>, variant: usize) -> Arrs<T, N> {
+pub fn backgrounds<T: PNum, const N: usize>(bad: Option<usize>, variant: usize) -> Arrs<T, N> {
     let mut out = [([T::zero(); N], [T::zero(); N]); NCLS];
     for cls in 0..NCLS {
         for i in 0..N {
@@ -220,7 +220,7 @@ fn backgrounds<T: PNum, const N: usize>(bad: Option<usize>, variant: usize) -> A
     out
 }
 /// The same with equal left and right operands (for `op(&v, &v)`).
-fn backgrounds_alias<T: PNum, const N: usize>(bad: Option<usize>, variant: usize) -> Arrs<T, N> {
+pub fn backgrounds_alias<T: PNum, const N: usize>(bad: Option<usize>, variant: usize) -> Arrs<T, N> {
     let mut out = backgrounds::<T, N>(None, variant);
     for cls in 0..NCLS {
         if let (Some(q), Some(x)) = (bad, T::bad_alias(cls, variant)) {
@@ -233,21 +233,21 @@ fn backgrounds_alias<T: PNum, const N: usize>(bad: Option<usize>, variant: usize
 
 #[derive(Default)]
 pub struct St {
-    focus_fail: bool,
-    focus_ok: bool,
-    other_fail: bool,
-    none: bool,
-    some: bool,
-    pair_none: bool,
-    pair_some: bool,
-    flag_set: bool,
-    flag_clear: bool,
-    panics: bool,
-    pair_panics: bool,
-    pair_returns: bool,
-    div0: bool,
-    pred_true: bool,
-    pred_false: bool,
+    pub focus_fail: bool,
+    pub focus_ok: bool,
+    pub other_fail: bool,
+    pub none: bool,
+    pub some: bool,
+    pub pair_none: bool,
+    pub pair_some: bool,
+    pub flag_set: bool,
+    pub flag_clear: bool,
+    pub panics: bool,
+    pub pair_panics: bool,
+    pub pair_returns: bool,
+    pub div0: bool,
+    pub pred_true: bool,
+    pub pred_false: bool,
 }
 
 pub struct Ctx<'a, T, const N: usize> {
@@ -262,6 +262,9 @@ pub struct Ctx<'a, T, const N: usize> {
     panic_rows: bool,
 }
 impl<'a, T, const N: usize> Ctx<'a, T, N> {
+    pub fn new(cx: &'a mut Cx, arrs: &'a Arrs<T, N>, p: usize, st: &'a mut St, same: bool) -> Self {
+        Ctx { cx, arrs, p, st, same, panic_rows: true }
+    }
     fn form(&self) -> &'static str {
         if self.same { "op(&v, &v), the same object" } else { "two objects" }
     }
@@ -277,14 +280,14 @@ impl<'a, T, const N: usize> Ctx<'a, T, N> {
 // ---------------------------------------------------------------------------------------------
 // one function per kind of method; `vop` is the vector's trait method, `sop` the scalar's
 
-fn k_nullary<T: PNum, V: VIo<T, N>, const N: usize>(c: &mut Ctx<T, N>, name: &'static str, _cls: usize, vop: impl Fn() -> V, sop: impl Fn() -> T) -> CaseResult {
+pub fn k_nullary<T: PNum, V: VIo<T, N>, const N: usize>(c: &mut Ctx<T, N>, name: &'static str, _cls: usize, vop: impl Fn() -> V, sop: impl Fn() -> T) -> CaseResult {
     let got = vop().rd();
     let want = [sop(); N];
     check!(c.cx, same_arr(&got, &want), "{}<{}> {}() = {:?}, want {:?} in every lane", V::NAME, T::NAME, name, got, want[0]);
     Ok(())
 }
 
-fn k_setter<T: PNum, V: VIo<T, N>, const N: usize>(c: &mut Ctx<T, N>, name: &'static str, cls: usize, vop: impl Fn(&mut V), sop: impl Fn(&mut T)) -> CaseResult {
+pub fn k_setter<T: PNum, V: VIo<T, N>, const N: usize>(c: &mut Ctx<T, N>, name: &'static str, cls: usize, vop: impl Fn(&mut V), sop: impl Fn(&mut T)) -> CaseResult {
     let arrs = c.arrs;
     let a = &arrs[cls].0;
     let mut w = V::mk(a);
@@ -296,7 +299,7 @@ fn k_setter<T: PNum, V: VIo<T, N>, const N: usize>(c: &mut Ctx<T, N>, name: &'st
     Ok(())
 }
 
-fn k_pred<T: PNum, V: VIo<T, N>, const N: usize>(c: &mut Ctx<T, N>, name: &'static str, cls: usize, vop: impl Fn(&V) -> bool, sop: impl Fn(&T) -> bool) -> CaseResult {
+pub fn k_pred<T: PNum, V: VIo<T, N>, const N: usize>(c: &mut Ctx<T, N>, name: &'static str, cls: usize, vop: impl Fn(&V) -> bool, sop: impl Fn(&T) -> bool) -> CaseResult {
     let arrs = c.arrs;
     let a = &arrs[cls].0;
     let mut want = true;
@@ -311,7 +314,7 @@ fn k_pred<T: PNum, V: VIo<T, N>, const N: usize>(c: &mut Ctx<T, N>, name: &'stat
     Ok(())
 }
 
-fn k_checked_bin<T: PNum, V: VIo<T, N>, const N: usize>(c: &mut Ctx<T, N>, name: &'static str, cls: usize, vop: impl Fn(&V, &V) -> Option<V>, sop: impl Fn(&T, &T) -> Option<T>) -> CaseResult {
+pub fn k_checked_bin<T: PNum, V: VIo<T, N>, const N: usize>(c: &mut Ctx<T, N>, name: &'static str, cls: usize, vop: impl Fn(&V, &V) -> Option<V>, sop: impl Fn(&T, &T) -> Option<T>) -> CaseResult {
     let arrs = c.arrs;
     let (a, b) = &arrs[cls];
     let mut want = *a;
@@ -341,7 +344,7 @@ fn k_checked_bin<T: PNum, V: VIo<T, N>, const N: usize>(c: &mut Ctx<T, N>, name:
     Ok(())
 }
 
-fn k_checked_un<T: PNum, V: VIo<T, N>, const N: usize>(c: &mut Ctx<T, N>, name: &'static str, cls: usize, vop: impl Fn(&V) -> Option<V>, sop: impl Fn(&T) -> Option<T>) -> CaseResult {
+pub fn k_checked_un<T: PNum, V: VIo<T, N>, const N: usize>(c: &mut Ctx<T, N>, name: &'static str, cls: usize, vop: impl Fn(&V) -> Option<V>, sop: impl Fn(&T) -> Option<T>) -> CaseResult {
     let arrs = c.arrs;
     let a = &arrs[cls].0;
     let mut want = *a;
@@ -370,7 +373,7 @@ fn k_checked_un<T: PNum, V: VIo<T, N>, const N: usize>(c: &mut Ctx<T, N>, name: 
 }
 
 /// (quotient, remainder) in one call, checked
-fn k_checked_pair<T: PNum, V: VIo<T, N>, const N: usize>(c: &mut Ctx<T, N>, name: &'static str, cls: usize, vop: impl Fn(&V, &V) -> Option<(V, V)>, sop: impl Fn(&T, &T) -> Option<(T, T)>) -> CaseResult {
+pub fn k_checked_pair<T: PNum, V: VIo<T, N>, const N: usize>(c: &mut Ctx<T, N>, name: &'static str, cls: usize, vop: impl Fn(&V, &V) -> Option<(V, V)>, sop: impl Fn(&T, &T) -> Option<(T, T)>) -> CaseResult {
     let arrs = c.arrs;
     let (a, b) = &arrs[cls];
     let (mut want0, mut want1) = (*a, *a);
@@ -401,7 +404,7 @@ fn k_checked_pair<T: PNum, V: VIo<T, N>, const N: usize>(c: &mut Ctx<T, N>, name
     Ok(())
 }
 
-fn k_plain_bin<T: PNum, V: VIo<T, N>, const N: usize>(c: &mut Ctx<T, N>, name: &'static str, cls: usize, vop: impl Fn(&V, &V) -> V, sop: impl Fn(&T, &T) -> T) -> CaseResult {
+pub fn k_plain_bin<T: PNum, V: VIo<T, N>, const N: usize>(c: &mut Ctx<T, N>, name: &'static str, cls: usize, vop: impl Fn(&V, &V) -> V, sop: impl Fn(&T, &T) -> T) -> CaseResult {
     let arrs = c.arrs;
     let (a, b) = &arrs[cls];
     let mut want = *a;
@@ -413,7 +416,7 @@ fn k_plain_bin<T: PNum, V: VIo<T, N>, const N: usize>(c: &mut Ctx<T, N>, name: &
     Ok(())
 }
 
-fn k_plain_un<T: PNum, V: VIo<T, N>, const N: usize>(c: &mut Ctx<T, N>, name: &'static str, cls: usize, vop: impl Fn(&V) -> V, sop: impl Fn(&T) -> T) -> CaseResult {
+pub fn k_plain_un<T: PNum, V: VIo<T, N>, const N: usize>(c: &mut Ctx<T, N>, name: &'static str, cls: usize, vop: impl Fn(&V) -> V, sop: impl Fn(&T) -> T) -> CaseResult {
     let arrs = c.arrs;
     let a = &arrs[cls].0;
     let mut want = *a;
@@ -423,7 +426,7 @@ fn k_plain_un<T: PNum, V: VIo<T, N>, const N: usize>(c: &mut Ctx<T, N>, name: &'
     Ok(())
 }
 
-fn k_overflowing_bin<T: PNum, V: VIo<T, N>, const N: usize>(c: &mut Ctx<T, N>, name: &'static str, cls: usize, vop: impl Fn(&V, &V) -> (V, bool), sop: impl Fn(&T, &T) -> (T, bool)) -> CaseResult {
+pub fn k_overflowing_bin<T: PNum, V: VIo<T, N>, const N: usize>(c: &mut Ctx<T, N>, name: &'static str, cls: usize, vop: impl Fn(&V, &V) -> (V, bool), sop: impl Fn(&T, &T) -> (T, bool)) -> CaseResult {
     let arrs = c.arrs;
     let (a, b) = &arrs[cls];
     let mut want = *a;
@@ -445,7 +448,7 @@ fn k_overflowing_bin<T: PNum, V: VIo<T, N>, const N: usize>(c: &mut Ctx<T, N>, n
 }
 
 /// Unchecked; panics exactly when some lane's scalar call panics.
-fn k_panicky_bin<T: PNum, V: VIo<T, N>, const N: usize>(c: &mut Ctx<T, N>, name: &'static str, cls: usize, vop: impl Fn(&V, &V) -> V, sop: impl Fn(&T, &T) -> T) -> CaseResult {
+pub fn k_panicky_bin<T: PNum, V: VIo<T, N>, const N: usize>(c: &mut Ctx<T, N>, name: &'static str, cls: usize, vop: impl Fn(&V, &V) -> V, sop: impl Fn(&T, &T) -> T) -> CaseResult {
     if cls == C_PANIC && !c.panic_rows { return Ok(()); }
     let arrs = c.arrs;
     let (a, b) = &arrs[cls];
@@ -481,7 +484,7 @@ fn k_panicky_bin<T: PNum, V: VIo<T, N>, const N: usize>(c: &mut Ctx<T, N>, name:
 }
 
 /// (quotient, remainder) in one call, unchecked.
-fn k_panicky_pair<T: PNum, V: VIo<T, N>, const N: usize>(c: &mut Ctx<T, N>, name: &'static str, cls: usize, vop: impl Fn(&V, &V) -> (V, V), sop: impl Fn(&T, &T) -> (T, T)) -> CaseResult {
+pub fn k_panicky_pair<T: PNum, V: VIo<T, N>, const N: usize>(c: &mut Ctx<T, N>, name: &'static str, cls: usize, vop: impl Fn(&V, &V) -> (V, V), sop: impl Fn(&T, &T) -> (T, T)) -> CaseResult {
     if cls == C_PANIC && !c.panic_rows { return Ok(()); }
     let arrs = c.arrs;
     let (a, b) = &arrs[cls];
@@ -611,7 +614,7 @@ pub const ABOUT_FLOAT: &str = float_table!(about_rows
 // ---------------------------------------------------------------------------------------------
 // cases
 
-fn labels(cx: &mut Cx, bg: u64, st: &St) {
+pub fn labels(cx: &mut Cx, bg: u64, st: &St) {
     cx.label(["bg-benign", "bg-next-lane-offends", "bg-prev-lane-offends"][bg as usize]);
     cx.label("two-objects");
     cx.label("same-object");
@@ -727,8 +730,8 @@ fn float_core<T: PFloat, V: PFloatV<T, N>, const N: usize>(p: usize, bg: u64, cx
 /// All 13 vector types, all 146 lanes x 3 backgrounds. The lane slots are scattered over the index
 /// range (x 37 mod 146) so that every worker's share mixes cheap and expensive vector types.
 pub const TOTAL: u64 = 146 * 3;
-type CoreFn = fn(usize, u64, &mut Cx) -> CaseResult;
-fn spread(idx: u64, t: &[(usize, CoreFn)], cx: &mut Cx) -> CaseResult {
+pub type CoreFn = fn(usize, u64, &mut Cx) -> CaseResult;
+pub fn spread(idx: u64, t: &[(usize, CoreFn)], cx: &mut Cx) -> CaseResult {
     let bg = idx % 3;
     let mut slot = ((idx / 3) * 37 % 146) as usize;
     for (n, f) in t.iter() {
